@@ -36,8 +36,8 @@ LEVEL_TEXT = ('Theorems (Props/C09.v): the reference decoder accepts exactly the
               'WIND (Model/Wind.v, Proofs/WindProofs.v; Memmap reader hand-modelled incl. the RecordFile walk of its __init__, with a three-valued result read / raise / never returns): C09_wind_dec_enc, C09_wind_reader_presents_content at full strength (two or more cells, any number of steps; reader as repaired by '
               'db74c5b / d3c85b3), C09_wind_1x1_refuted (1x1 grids: region 12). '
               'Tie H: constructor WD.')
-LEVEL_NOTE = ('Trusted: Coq kernel+vm_compute, py2coq, the harness. CAMx met formats, landuse and bpch: record framing proved generically, layouts compared by '
-              'correspondence only (see evidence distribution).')
+LEVEL_NOTE = ('Trusted: Coq kernel+vm_compute, py2coq, the harness. All CAMx formats and bpch have Coq codecs and reader models; the readers are hand models '
+              'tied by correspondence (see evidence distribution), dtype literals / pads / block arithmetic are translated from the source.')
 TECHNIQUE = 'Coq proof (codec round trip, framing soundness, reader-model refinement) + translation from source + differential correspondence'
 
 
